@@ -50,6 +50,7 @@ type c09Scenario struct {
 	JamDur            time.Duration
 	RetryDur          time.Duration
 	PreAlloc          int
+	NilHandler        bool `json:"nil_panic_handler,omitempty"`
 	KeepQueueOpen     bool
 	Sibling           bool
 	Submitters        [][]c09Sub
@@ -112,6 +113,8 @@ func genC09(t *simrt.Tape, tier string) Scenario {
 	}
 	sc.KeepQueueOpen = t.Bool(1, 3)
 	sc.Sibling = t.Bool(1, 4)
+	// SetPanicHandler(nil): panics are swallowed silently, everything else must stay the same
+	sc.NilHandler = t.Bool(1, 5)
 	maxSub, maxJobs := 2, 6
 	if tier == "thorough" {
 		maxSub, maxJobs = 3, 12
@@ -172,6 +175,9 @@ func (sc *c09Scenario) Run(s *simrt.Sim) {
 		pool.SetPanicHandler(func(v interface{}) {
 			sc.handler = append(sc.handler, c09Handled{at: s.Stamp(), val: fmt.Sprint(v)})
 		})
+		if sc.NilHandler {
+			pool.SetPanicHandler(nil)
+		}
 		pool.SetWorkerSizeMaximum(sc.Max).SetWorkerSizeStandBy(sc.StandBy).SetWorkerBatchSize(sc.Batch).
 			SetSpawnWorkerDuration(sc.SpawnDur).SetWorkerExpiryDuration(sc.ExpiryDur).SetWorkerJamDuration(sc.JamDur).SetScheduleRetryInterval(sc.RetryDur)
 		if sc.KeepQueueOpen {
@@ -438,7 +444,7 @@ func (sc *c09Scenario) Check(res *simrt.Result) []Violation {
 		}
 	}
 	for v := range want {
-		if got[v] == 0 {
+		if got[v] == 0 && !sc.NilHandler {
 			add("panic-handler", "not-reported", fmt.Sprintf("job panic %q never reached the panic handler", v))
 		}
 	}
